@@ -168,3 +168,15 @@ func TestReplay(t *testing.T) {
 }
 
 var _ = rapid.Check
+
+// oneIn reports true for about one case in n. rapid's integer generators
+// favour small and boundary values, so the drawn value is mixed first.
+func oneIn(rt *rapid.T, n int) bool {
+	x := rapid.Uint64().Draw(rt, "sample") + 0x9e3779b97f4a7c15
+	x ^= x >> 30
+	x *= 0xbf58476d1ce4e5b9
+	x ^= x >> 27
+	x *= 0x94d049bb133111eb
+	x ^= x >> 31
+	return x%uint64(n) == 0
+}
